@@ -23,6 +23,9 @@ func c04Alphabet(bodies []string, splits [][]string, algs []string) func(m *sx.M
 		if b == nil {
 			return []sx.Op{{Kind: "CreateBucket", B: "bka"}}
 		}
+		if b.Versioning == "" {
+			ops = append(ops, sx.Op{Kind: "PutVersioning", B: "bka", Opt: map[string]string{"status": "Enabled"}})
+		}
 		usedK := map[string]bool{}
 		for k := range b.Keys {
 			usedK[k] = true
